@@ -209,6 +209,14 @@ pub trait DSet: Sized {
         let mut m = vec![0; self.size() + 1];
         let mut queue = VecDeque::new();
 
+        let degrees_match = |d: usize, e: usize| {
+            (0..self.dim()).all(|i| self.m(i, i + 1, d) == other.m(i, i + 1, e))
+        };
+
+        if !degrees_match(1, img0) {
+            return None;
+        }
+
         m[1] = img0;
         queue.push_back((1, img0));
 
@@ -216,7 +224,7 @@ pub trait DSet: Sized {
             for i in 0..=self.dim() {
                 if let Some(di) = self.op(i, d) {
                     if let Some(ei) = other.op(i, e) {
-                        if m[di] == 0 && self.degrees_match(d, e) {
+                        if m[di] == 0 && degrees_match(di, ei) {
                             m[di] = ei;
                             queue.push_back((di, ei));
                         } else if m[di] != ei {
